@@ -45,6 +45,47 @@ def run(case):
     return {'fails': after != want, 'before': before, 'after': after, 'expected': want}
 
 
+def rebind_isolation():
+    """binding is non-destructive: embedding one application in two others leaves it, and each of them, as they were"""
+    from clastic import Application, Response
+    problems = []
+
+    def fac(tag):
+        def render_factory(arg):
+            return lambda context: Response('%s:%s' % (tag, arg))
+        return render_factory
+    inner = Application([('/hello', lambda: {'x': 1}, 'tmpl')], render_factory=fac('inner'))
+    before = [(r.pattern, len(r.bound_apps), r.bound_apps[-1] is inner) for r in inner.routes]
+    body0 = inner.get_local_client().get('/hello').get_data()
+    a = Application([('/a', inner)], render_factory=fac('A'))
+    body_a0 = a.get_local_client().get('/a/hello').get_data()
+    b = Application([('/b', inner)])
+    c = Application([('/c', inner)], render_factory=fac('C'), resources={'r': 1})
+    after = [(r.pattern, len(r.bound_apps), r.bound_apps[-1] is inner) for r in inner.routes]
+    if before != after:
+        problems.append('embedding changed the embedded application\'s routes: %r -> %r' % (before, after))
+    if inner.get_local_client().get('/hello').get_data() != body0:
+        problems.append('the embedded application answers differently after being embedded')
+    if a.get_local_client().get('/a/hello').get_data() != body_a0:
+        problems.append('application A answers differently after the same application was embedded elsewhere')
+    for app_, pre in ((a, '/a'), (b, '/b'), (c, '/c')):
+        for r in app_.routes:
+            if len(r.bound_apps) != 2 or r.bound_apps[0] is not inner or r.bound_apps[1] is not app_:
+                problems.append('%s: bound_apps of %s is %r' % (pre, r.pattern, [type(x).__name__ for x in r.bound_apps]))
+    return problems
+
+
+_run = run
+
+
+def run(case):
+    if case.get('scenario') == 'rebind_isolation':
+        p = rebind_isolation()
+        return {'fails': bool(p), 'why': '; '.join(p[:3])}
+    return _run(case)
+
+
+
 if __name__ == '__main__':
     case = json.load(sys.stdin)
     try:
